@@ -52,7 +52,7 @@ func errExcludedCallee(p *Program, callee *ssa.Function, cs ssa.CallInstruction)
 	case "RUnlock", "Close":
 		return "lock/close family"
 	}
-	if p.FnKey(callee) == "(*db.filePager).lock" {
+	if isFcntlWrapper(p, callee) {
 		return "fcntl wrapper (PAGER rules)"
 	}
 	if o := callee.Object(); o != nil && o.Pkg() != nil {
